@@ -39,6 +39,7 @@ func c05Batches(thorough bool) []c05Batch {
 	add(c05LocCases())
 	add(c05QualCases(thorough))
 	out = append(out, c05Batch(c05OtherFileBatch()))
+	add(c05UniverseCases())
 	add(c05MultiCases(thorough))
 	add(c05ArityCases(thorough))
 	add(c05SigCases(thorough))
